@@ -235,7 +235,7 @@ pub fn random_trace(seed: u64) -> Trace {
 /// every id and every cell of a few expressions, for each code and highlight style (quick: a rotating subset)
 pub fn directed(all: bool) -> Vec<Trace> {
     let mut v = Vec::new();
-    let exprs: &[usize] = if all { &[2, 3, 5, 8, 10, 12, 15, 19, 30, 31, 38] } else { &[3, 8, 10, 19] };
+    let exprs: &[usize] = if all { &[2, 3, 5, 8, 10, 12, 15, 19, 30, 31, 38, 50, 51, 52] } else { &[3, 8, 10, 19, 50, 51] };
     for (ci, code) in CODES.iter().enumerate() {
         for (hi, hl) in pools::HIGHLIGHT.iter().enumerate() {
             let mut t = Trace::new("C20", "C20");
